@@ -3,6 +3,7 @@ import json
 import random
 import sys
 
+from harness import ref_text as RT
 from harness import core, gen_db as GD, gen_text as GT, impl_text as IT, observe as O, speller as SP
 from harness import parse_common as PC
 from harness.driver import Driver, DriverError
@@ -98,7 +99,7 @@ def link_violations(db):
 
 def job(seed):
     rng = random.Random(seed)
-    spec = SP.normalise_for_spelling(GD.gen_spec(rng, wild=False, max_tables=4), IT.norm_impl)
+    spec = SP.normalise_for_spelling(GD.gen_spec(rng, wild=False, max_tables=4), RT.ref_norm)
     if not SP.spellable(spec):
         return None
     text, exp, info = SP.spell(spec, rng, {'varied': True})
